@@ -1289,11 +1289,14 @@ func c04RootOf(v ssa.Value) ssa.Value {
 	return v
 }
 
-func runC04SubQueryLineage(c *Ctx) {
+func runC04SubQueryLineage(c *Ctx) { runSubQueryLineage(c, "C04-R10") }
+
+// runSubQueryLineage is claimed by C04 (lifetimes) and C08 (leases): R names the rule.
+func runSubQueryLineage(c *Ctx, R string) {
 	const cp = "middleware/cache"
-	c.Doc("C04-R10", "after every Cache.internalExchange call: wherever the sub-response is transferred into the outer message (a call receiving both the sub-response and another *dns.Msg, or a store into a field of a *dns.Msg parameter), every path from the exchange through that transfer to a return crosses subQueryLineage.inherit — the composed reply, and what is re-cached from it, is bounded by the sub-query's lifetime")
-	ie := c.fobj("C04-R10", cp+".(*Cache).internalExchange")
-	inherit := c.fobj("C04-R10", cp+".(*subQueryLineage).inherit")
+	c.Doc(R, "after every Cache.internalExchange call: wherever the sub-response is transferred into the outer message (a call receiving both the sub-response and another *dns.Msg, or a store into a field of a *dns.Msg parameter), every path from the exchange through that transfer to a return crosses subQueryLineage.inherit — the composed reply, and what is re-cached from it, is bounded by the sub-query's lifetime")
+	ie := c.fobj(R, cp+".(*Cache).internalExchange")
+	inherit := c.fobj(R, cp+".(*subQueryLineage).inherit")
 	if ie == nil || inherit == nil {
 		return
 	}
@@ -1308,12 +1311,12 @@ func runC04SubQueryLineage(c *Ctx) {
 	}
 	sites := c.CallSites(ie)
 	if len(sites) == 0 {
-		c.unresolved("C04-R10", "internalExchange", "no call site")
+		c.unresolved(R, "internalExchange", "no call site")
 	}
 	for _, s := range sites {
 		top := fnKey(TopLevel(s.Fn))
 		if s.Kind != "call" {
-			c.undecided("C04-R10", "C04-R10|"+top+"|internalExchange", instrPos(s.Instr), "internalExchange used other than by a plain call")
+			c.undecided(R, R+"|"+top+"|internalExchange", instrPos(s.Instr), "internalExchange used other than by a plain call")
 			continue
 		}
 		// inherit itself, or a same-package helper handed the lineage that calls
@@ -1401,9 +1404,9 @@ func runC04SubQueryLineage(c *Ctx) {
 				continue
 			}
 			n++
-			key := fmt.Sprintf("C04-R10|%s|%s", top, what)
+			key := fmt.Sprintf("%s|%s|%s", R, top, what)
 			if !noInh.visited[in] || inhBar.Instr(in) {
-				c.ok("C04-R10", key, instrPos(in), "lineage.inherit() precedes (or is part of) the transfer on every path from the exchange")
+				c.ok(R, key, instrPos(in), "lineage.inherit() precedes (or is part of) the transfer on every path from the exchange")
 				continue
 			}
 			r := reach([]Point{pointAfter(in)}, []Barrier{inhBar}, nil)
@@ -1411,17 +1414,17 @@ func runC04SubQueryLineage(c *Ctx) {
 			for _, t := range r.order {
 				if isReturn(t) {
 					bad = true
-					c.violation("C04-R10", key, instrPos(t), fmt.Sprintf("%s: the sub-query's answer reaches the outer reply (%s at %s) and the function can return without lineage.inherit(): the composed reply is cached and served beyond the lifetime of the piece it was built from; path %s", top, what, c.P.pos(instrPos(in)), c.trail(r, t)))
+					c.violation(R, key, instrPos(t), fmt.Sprintf("%s: the sub-query's answer reaches the outer reply (%s at %s) and the function can return without lineage.inherit(): the composed reply is cached and served beyond the lifetime of the piece it was built from; path %s", top, what, c.P.pos(instrPos(in)), c.trail(r, t)))
 					break
 				}
 			}
 			if !bad {
-				c.ok("C04-R10", key, instrPos(in), "every return after this transfer crosses lineage.inherit()")
+				c.ok(R, key, instrPos(in), "every return after this transfer crosses lineage.inherit()")
 			}
 		}
 		if n == 0 {
-			c.unresolved("C04-R10", top+"|transfers", "the sub-response is never transferred into an outer message (rule would pass vacuously)")
+			c.unresolved(R, top+"|transfers", "the sub-response is never transferred into an outer message (rule would pass vacuously)")
 		}
 	}
-	c.Floor("C04-R10", 4)
+	c.Floor(R, 4)
 }
